@@ -7,7 +7,11 @@ Driver family `evm` (C10).  Lines written by `harness/ethereum/*_verif_test.go`:
   started against the scripted node; `tag` = block tag it asked for, `sub` = its `eth_subscribe` filter.
 * `log <cid> tx= bh= bn= sender= tchain= seq= nonce= pl= cl= rm= bad= bt= <tail>` — a log notification was delivered.
 * `head <cid> <tail>` — the node's heads changed (`pe` = consecutive poll failures scripted, `nn` = failure flavour).
-* `reobs <cid> tx= blat= bfin= bsafe= bnerr= nn= rc= rbt= rlogs= <tail>` — an observation request was sent.
+* `race <cid> <log fields> held= ins= <tail>` — the node's heads changed and, while the watcher was processing the new head
+  (`held=1`: the node held back the answer to a receipt request of that scan), a log notification was delivered; `ins` =
+  `during` if the entry was in `w.pending` while the receipt was still held, `after` if the log goroutine parked on `pendingMu`.
+* `reobs <cid> tx= blat= bfin= bsafe= bnerr= nn= rc= rbt= rlogs= hq= <tail>` — an observation request was sent (`hq` = head
+  reads that reached the node during the op: block tags of `eth_getBlockByNumber`, or the name of another method).
   `<tail>` = `lat= fin= safe= pe= ans=<tx:answer,..>` (inputs: heads after the op, what the node answers for each pending tx)
   then the implementation's results `heads= look= fwd= reord= out= pend= en= exit= stuck= bts=`.
 * `evt <id> ...` / `gb <id> ...` / `pb <id> ...` — direct calls of `MessageEventsForTransaction`, `getBlock`, `pollBlocks`.
@@ -133,7 +137,7 @@ def flush (c : CaseSt) : List String :=
   | none, some d => [s!"diff {c.id} {d}"]
   | none, none => [s!"ok {c.id}"]
 
-def watchedBy (cfg : Cfg) (lat fin : Nat) : Nat := if cfg.useFinalized then fin else lat
+def watchedBy (cfg : Cfg) (lat fin : Nat) : Nat := reobsHead cfg lat fin
 
 /-- What the model expects the harness to have observed during one op. -/
 structure Obs where
@@ -285,7 +289,7 @@ def specEval (c : CaseSt) (op : String) (topic : Bytes) (i : SpecIn) : CaseSt :=
       else if transient a then
         if inPend e then keep := keep ++ [e]
         else if e.height + conf + cfg.maxWait ≤ H then pure ()
-        else c := c.addSpec "transient-error-dropped" s!"{op}#{c.lines} message {showKey e.key} height {e.height} conf {conf}: receipt lookup failed with a transient error at head {H} (window ends at {e.height + conf + cfg.maxWait}) and the message was abandoned"
+        else c := c.addSpec "transient-error-dropped" s!"{op}#{c.lines} message {showKey e.key} height {e.height} conf {conf}: the node answers its receipt lookup with a transient error at head {H} (window ends at {e.height + conf + cfg.maxWait}) and the message is no longer pending (abandoned)"
       else
         -- orphaned (not found), failed (status ≠ 1) or re-mined in another block: must be dropped
         if inPend e then
@@ -370,6 +374,40 @@ def stepCase (c : CaseSt) (op : String) (fs : List String) : CaseSt :=
                     { cm with truth := insertPend (mkPend cm.cfg ev ((parseBt bt).getD 0)) cm.truth } else cm
         if implExit = "-" then specEval cs op topicBytes specIn else cs
       | _, _, _, _, _, _, _, _, _, _ => c.addDiff s!"{op}#{c.lines} unparsable log line"
+    | "race" =>
+      match kvHex fs "tx", kvHex fs "bh", kvNat fs "bn", kvHex fs "sender", kvNat fs "tchain", kvNat fs "seq", kvNat fs "nonce",
+            kvHex fs "pl", kvNat fs "cl", (kv fs "bt") >>= parseBt with
+      | some tx, some bh, some bn, some sender, some tchain, some seq, some nonce, some pl, some cl, some t =>
+        let ev : Event := { sender := sender, targetChain := tchain, seq := seq, nonce := nonce, payload := pl, cl := cl,
+                            rawTx := tx, rawBh := bh, rawBn := bn }
+        let c := { c with maxServed := max c.maxServed W }
+        let pB := mkPend c.cfg ev t
+        -- model: the scan holds pendingMu, so the log is inserted when the scan has ended (head event, then log event); the
+        -- insertion enables the poller, which publishes the head if the scan had not been for it
+        let (cm, obs, mHeld) : CaseSt × Obs × Bool :=
+          if !c.alive then (c, {}, false)
+          else
+            let rcf := fun x => clientView (nodeAns ans x)
+            let (st1, r1) := headThenLog c.cfg c.st W rcf ev t
+            let o1 : Obs := match r1 with
+              | some r => headObs r W
+              | none => {}
+            let (c2, o2) := modelSettle { c with st := st1 } W ans
+            (c2, Obs.merge (Obs.merge o1 { bts := [toHex bh] }) o2, !o1.look.isEmpty)
+        let cm := compareObs cm op fs obs
+        let cm := if c.alive && implExit = "-" && kvBool fs "held" ≠ mHeld then
+                    cm.addDiff s!"{op}#{cm.lines} receipt request held during the scan: model={mHeld} impl={(kv fs "held").getD "?"}" else cm
+        let cm := if c.alive && implExit = "-" && kv fs "ins" ≠ some "after" then
+                    cm.addDiff s!"{op}#{cm.lines} the log was inserted into pending while the head scan was waiting for a receipt (the scan does not hold pendingMu)" else cm
+        if implExit ≠ "-" then cm else
+        -- Spec: the message counts as delivered (decodable log pushed, block time served, the watcher logged it). The head of this
+        -- op was published before the delivery, so the message owes nothing to it - unless the watcher forwarded it already.
+        if specIn.fwd.contains (showMsg pB.msg) then
+          specEval { cm with truth := insertPend pB cm.truth } op topicBytes specIn
+        else
+          let cs := specEval cm op topicBytes specIn
+          { cs with truth := insertPend pB cs.truth }
+      | _, _, _, _, _, _, _, _, _, _ => c.addDiff s!"{op}#{c.lines} unparsable race line"
     | "head" =>
       let c := { c with maxServed := if pe ≥ 3 then c.maxServed else max c.maxServed W }
       let (cm, obs) : CaseSt × Obs :=
@@ -407,6 +445,9 @@ def stepCase (c : CaseSt) (op : String) (fs : List String) : CaseSt :=
             let (c2, o2) := modelSettle c W ans
             (c2, Obs.merge o o2)
         let cm := compareObs cm op fs obs
+        -- the head read of the re-observation path goes through the poller's getBlock: same tag as the poller, nothing else
+        let cm := if c.alive && implExit = "-" && (kv fs "hq").isSome && kvList fs "hq" "," ≠ [reobsHeadTag c.cfg] then
+                    cm.addDiff s!"{op}#{cm.lines} head reads during re-observation: model={reobsHeadTag c.cfg} impl={(kv fs "hq").getD "?"}" else cm
         if implExit = "-" then specEval cm op topicBytes { specIn with reobs := some (rcv, bt) } else cm
       | _, _, _, _, _, _ => c.addDiff s!"{op}#{c.lines} unparsable reobs line"
     | _ => c.addDiff s!"unknown op {op}"
@@ -528,7 +569,7 @@ def step (st : DSt) (line : String) : DSt × List String :=
       | none => []
     ({ bump st "ws_cases" with cur := some (startCase id rest) }, outs)
   | op :: id :: rest =>
-    if op = "log" || op = "head" || op = "reobs" then
+    if op = "log" || op = "head" || op = "reobs" || op = "race" then
       match st.cur with
       | some c =>
         if c.id = id then
